@@ -15,14 +15,16 @@ import warnings
 from fractions import Fraction
 
 BRANCH_KINDS = ['conv3', 'conv1', 'conv5', 'conv3nb', 'dw3', 'seq', 'dwsep', 'seq1', 'id', 'pool',
-                'ub', 'ubn', 'ubf', 'ubr', 'uba', 'ubm']
+                'ub', 'ubn', 'ubf', 'ubr', 'uba', 'ubm', 'ub2x']
+# user blocks that invoke one of their layers twice (per-invocation metrics: finding (g) of C06)
+LAYER_TWICE_INSIDE = {'ub2x'}
 # user blocks whose forward ends in a functional / method op (the F8 class)
 FUNCTIONAL_TAIL = {'ubf', 'ubr', 'uba', 'ubm'}
 KIND_CLASS = {'conv3': 'single', 'conv1': 'single', 'conv5': 'single', 'conv3nb': 'single', 'dw3': 'single',
               'pool': 'single', 'seq': 'sequential', 'dwsep': 'sequential', 'seq1': 'sequential',
               'id': 'identity', 'ub': 'user-module-tail', 'ubn': 'user-module-tail',
               'ubf': 'user-functional-tail', 'ubr': 'user-functional-tail', 'uba': 'user-functional-tail',
-              'ubm': 'user-functional-tail'}
+              'ubm': 'user-functional-tail', 'ub2x': 'user-module-tail'}
 
 
 def _torch():
@@ -93,6 +95,15 @@ def make_classes():
         def forward(s, x):
             return s.conv(x).clamp(-1.0, 1.0)
 
+    class UB2X(nn.Module):
+        """one layer invoked twice inside the block"""
+        def __init__(s, c):
+            super().__init__()
+            s.conv = nn.Conv2d(c, c, 3, padding=1)
+
+        def forward(s, x):
+            return s.conv(F.relu(s.conv(x)))
+
     def branch(kind, c):
         if kind == 'conv3':
             return nn.Conv2d(c, c, 3, padding=1)
@@ -114,7 +125,7 @@ def make_classes():
             return nn.Sequential(nn.Conv2d(c, c, 3, padding=1))
         if kind == 'id':
             return nn.Identity()
-        return {'ub': UB, 'ubn': UBN, 'ubf': UBF, 'ubr': UBR, 'uba': UBA, 'ubm': UBM}[kind](c)
+        return {'ub': UB, 'ubn': UBN, 'ubf': UBF, 'ubr': UBR, 'uba': UBA, 'ubm': UBM, 'ub2x': UB2X}[kind](c)
 
     return branch
 
